@@ -378,7 +378,7 @@ func (g *gen) plantDup(roots []*gnode) {
 	switch {
 	case u.name == v.name && g.r.Chance(50):
 		u.id, v.id = -1, -1 // two nodes of one type without ids
-	case g.r.Chance(30):
+	case g.r.Chance(30) && u.name != 48:
 		v.id = u.name // explicit id equal to the other's type name
 		u.id = -1
 	default:
@@ -820,7 +820,32 @@ func cfgTree(n *node.Config) sx.Tree {
 		sx.T(ks...), h, sx.L(0))
 }
 
-var fileSeq int
+// hasEmptyID: some node or handler carries the explicit id code 48 (the empty string)
+func hasEmptyID(nodes sx.Tree) (found bool) {
+	defer func() {
+		if r := recover(); r != nil {
+			found = true // not a node list at all
+		}
+	}()
+	var rec func(n sx.Tree) bool
+	rec = func(n sx.Tree) bool {
+		if n.At(1).Len() > 0 && n.At(1).At(0).Int() == 48 {
+			return true
+		}
+		for _, k := range n.At(5).Kids {
+			if rec(k) {
+				return true
+			}
+		}
+		return n.At(6).Len() > 0 && rec(n.At(6).At(0))
+	}
+	for _, n := range nodes.Kids {
+		if rec(n) {
+			return true
+		}
+	}
+	return false
+}
 
 // Run executes one case against the real code.
 func Run(in sx.Tree) (obs sx.Tree) {
@@ -828,6 +853,9 @@ func Run(in sx.Tree) (obs sx.Tree) {
 	refuse := sx.T(sx.L(-2), sx.T())
 	if in.Len() != 7 || in.At(1).String() != paletteStr {
 		return refuse // the case names a registry other than the one registered in this process
+	}
+	if hasEmptyID(in.At(5)) {
+		return refuse // an explicit id "" is the same file as an absent id: not a distinct input
 	}
 	text, env := func() (t string, e map[string]string) {
 		defer func() {
@@ -840,7 +868,6 @@ func Run(in sx.Tree) (obs sx.Tree) {
 	if env == nil {
 		return refuse
 	}
-	fileSeq++
 	file := filepath.Join(os.TempDir(), fmt.Sprintf("fbverif-e6-%d.yaml", os.Getpid()))
 	if err := os.WriteFile(file, []byte(text), 0o600); err != nil {
 		return refuse
